@@ -52,6 +52,24 @@ def run(prop, tier, seed, scratch, t0):
             tl.append(rs)
             dr += ds
         tl.insert(0, f1.result())
+    # Early.tla: updates issued at the seam between opening and updating (version-1 cache, concurrent openings)
+    re_ = vlib.tlc(scratch, "Early", "SPECIFICATION Spec\nINVARIANTS AtMostOnce HandledWhenOpen NotBeforeOpen\nCHECK_DEADLOCK FALSE\n",
+                   name="Early", workers=1, extra=["-dump", "dot,actionlabels", "graph.dot"], timeout=600)
+    if not re_["ok"]:
+        raise vlib.Inconclusive("TLC reports %s in Early.tla itself" % re_["violated"])
+    edot = os.path.join(re_["dir"], "graph.dot")
+    re_["out"] = ""
+    tl.append(re_)
+    eshards = vlib.NCPU
+    with cf.ThreadPoolExecutor(max_workers=eshards) as ex:
+        de = list(ex.map(lambda k: vlib.run_driver(binary, "TestEarly", dict(VERIF_DOT=edot, VERIF_SHARD=k, VERIF_SHARDS=eshards, VERIF_SEED=seed),
+                                                   scratch, "early%d" % k, timeout=3000), range(eshards)))
+    os.remove(edot)
+    for d in de:
+        d["counts"]["early_paths"] = d["counts"].pop("behaviours", 0)
+        for k in ("graph_states", "graph_edges", "paths", "edges_executed"):
+            d["counts"].pop(k, None)
+    dr += de
     counts = vlib.merge_counts(dr)
     allv = [v for d in dr for v in d["violations"]]
     viol = [v for v in allv if v["kind"] == "monitor"]
@@ -69,13 +87,18 @@ def run(prop, tier, seed, scratch, t0):
              "current; rejection => unchanged and ready; without time-out versions differ by <= 1 and one state per version; "
              "agreement after everything was delivered and answered) and the observable state (current states, phases, "
              "call results, handler requests, envelopes in flight) is compared with the model (drift). "
-             "distinct_nontrivial = behaviours replayed",
+             "Early.tla adds the seam between opening and updating: A opens up to two channels with B, also at the same time; "
+             "B's funding call is held by the ledger so that A's first update reaches a B that does not know the channel yet "
+             "(version-1 cache), the openings finish in any order, the user accepts or rejects; EVERY path of that graph is "
+             "replayed; a request that reaches the handler again is answered the other way round; monitors: success => both "
+             "at version 1, rejection => both at version 0, a further update works on every channel. "
+             "distinct_nontrivial = Update.tla behaviours replayed",
         exhaustive=False, model_checked_exhaustively="Update.tla MaxVer=%d T=%d MaxUpd=%d" % mc, driver_counts=counts,
         tlc=[dict(config=r["cmd"].split("-config ")[1].split()[0], generated=r["generated"], distinct=r["distinct"],
                   wall_s=round(r["wall"], 1)) for r in tl],
-        checker_cmd="tlc Update_MC.cfg Update.tla ; tlc -simulate file=..,num=N Update.tla ; cdrv.test -test.run ^TestUpdate$",
+        checker_cmd="tlc Update_MC.cfg Update.tla ; tlc -simulate file=..,num=N Update.tla ; tlc -dump Early.tla ; cdrv.test -test.run '^TestUpdate$|^TestEarly$'",
     )
-    assumptions = ["one channel between two honest clients; envelopes are neither lost nor duplicated (a cancelled context stands for a time-out)",
+    assumptions = ["one or two channels between two honest clients; envelopes are neither lost nor duplicated (a cancelled context stands for a time-out)",
                    "the unit of scheduling is the environment step (delivery, answer, call start, cancellation); goroutine "
                    "schedules inside a client between two blocking points are those of the Go scheduler in the bubble"]
     return vlib.finish(prop, tier, seed, t0, cov, viol, assumptions, drift=drift)
